@@ -107,58 +107,7 @@ struct Runner
     }
 };
 
-// a long legal game (shuffles with periodic irreversible moves keep it legal)
-inline gen::Root long_game(Tape& t, Report* rep, int lo, int hi)
-{
-    (void)rep;
-    ref::Pos s = ref::startpos();
-    gen::Root best;
-    int target = lo + int(t.choose(uint32_t(hi - lo + 1)));
-    if (lo <= 780 && hi >= 800 && t.chance(1, 3)) target = 780 + int(t.choose(21));  // around the history buffer's size
-    // gen_game draws its own length in [0, max]; force a long one by chaining segments
-    ref::Game g(s);
-    std::vector<ref::Move> ms;
-    int sinceIrrev = 0;
-    while (int(g.moves.size()) < target)
-    {
-        ref::legal_moves(g.cur, ms);
-        if (ms.empty()) break;
-        // prefer quiet non-pawn moves; every ~60 plies play a pawn move or capture to reset the clock
-        std::vector<int> quiet, irrev;
-        for (size_t k = 0; k < ms.size(); ++k)
-        {
-            bool irr = ref::lower(g.cur.b[ms[k].from]) == 'p' || ref::is_capture(g.cur, ms[k]);
-            (irr ? irrev : quiet).push_back(int(k));
-        }
-        int idx;
-        bool wantIrrev = sinceIrrev > 60 + int(t.choose(60));
-        if ((wantIrrev && !irrev.empty()) || quiet.empty()) idx = irrev.empty() ? int(t.choose(uint32_t(ms.size()))) : irrev[t.choose(uint32_t(irrev.size()))];
-        else idx = quiet[t.choose(uint32_t(quiet.size()))];
-        // keep the history legal: clock <= 150, no position more than 5 times (check only the recent window)
-        bool ok = false;
-        for (int tries = 0; tries < 8 && !ok; ++tries)
-        {
-            ref::Pos n = ref::make(g.cur, ms[idx]);
-            if (n.half <= 150)
-            {
-                std::string k = ref::key4(n);
-                int occ = 1;
-                for (int i = int(g.keys.size()) - 1; i >= 0 && i >= int(g.keys.size()) - 1 - n.half; --i) occ += g.keys[i] == k;
-                if (occ <= 4) ok = true;
-            }
-            if (!ok) idx = int(t.choose(uint32_t(ms.size())));
-        }
-        if (!ok) break;
-        bool irr = ref::lower(g.cur.b[ms[idx].from]) == 'p' || ref::is_capture(g.cur, ms[idx]);
-        sinceIrrev = irr ? 0 : sinceIrrev + 1;
-        g.play(ms[idx]);
-    }
-    best.start = s;
-    best.moves = g.moves;
-    best.cur = g.cur;
-    best.kind = "long_game";
-    return best;
-}
+using gen::long_game;
 
 inline std::string go_command(Tape& t, Runner& r, bool& sendStop)
 {
